@@ -32,7 +32,8 @@ import (
 // through the three combiners the node has, and every (k-1)-subset is shown not to suffice.
 
 func TestMain(m *testing.M) {
-	stats.SetRule("one case = one DKG instance (n, member ids, miner seeds, group hash, message) with ALL subsets of size >= k combined in 3 arrival orders " +
+	stats.SetRule("one case = one DKG instance (n, member ids, miner seeds, group hash, message, history of 0-2 rounds of partial piece delivery followed by a generated set of members " +
+		"re-creating their group-creation context from the same seed and dealing again) with ALL subsets of size >= k combined in 3 arrival orders " +
 		"through model.GroupSignGenerator, round1's groupSignGenerator and groupsig.RecoverGroupSignature (supersets 4 runs), plus all (k-1)-subsets; " +
 		"non-trivial = ids are not 1..n and n >= 6; distinct by (n, ids, seeds, group hash, message)")
 	stats.Assume("member ids are non-zero and pairwise distinct modulo the group order r (ids are 256-bit hashes of public keys; a collision mod r or id = 0 mod r is " +
@@ -194,6 +195,11 @@ type instance struct {
 	orders  [3][]int
 	style   string
 	secrets []*big.Int
+
+	restarts     int    // member contexts re-created during key generation
+	restartClass string // restart_rounds:N
+	partial      bool   // a restarting dealer's pre-restart piece is held by a surviving receiver
+	dups         int    // duplicate pieces offered to receivers
 }
 
 func short(b []byte) string {
@@ -228,32 +234,35 @@ func buildInstance(t *rapid.T, n int) *instance {
 	}
 	in.msg = genMsg(t)
 
-	// --- the node's DKG ---
+	// --- the node's DKG, with a generated history of dealer restarts ---
+	// Rounds of (some pieces are delivered; a generated set of members loses its group-creation
+	// context and re-creates it from the same miner seed and group hash, then deals again),
+	// followed by every (current) dealer delivering to every receiver. Receivers apply the node's
+	// own duplicate rule to pieces they already hold.
 	members := make([]*group_create.VerifDKGMember, n)
 	dealt := make([]map[string]model.SharePiece, n)
-	sum := new(big.Int)
-	for i := 0; i < n; i++ {
+	has := make([][]bool, n) // has[j][d]: receiver j's current context holds a piece of dealer d
+	cnt := make([]int, n)    // pieces held by receiver j's current context
+	done := make([]bool, n)  // receiver j's current context reported completion
+	create := func(i int, again bool) {
 		memList := append([]groupsig.ID{}, in.ids...)
-		members[i] = group_create.VerifNewDKGMember(seeds[i], gh, memList)
-		if members[i] == nil {
+		m := group_create.VerifNewDKGMember(seeds[i], gh, memList)
+		if m == nil {
 			t.Fatalf("member %d: group init context not created for valid ids", i)
 		}
-		if th := members[i].Threshold(); th != in.k {
+		if th := m.Threshold(); th != in.k {
 			t.Fatalf("member %d derives threshold %d for n=%d, GetGroupK gives %d", i, th, n, in.k)
 		}
-		dealt[i] = members[i].GenSharePieces()
-		if len(dealt[i]) != n {
-			t.Fatalf("dealer %d dealt %d pieces for %d members", i, len(dealt[i]), n)
+		pieces := m.GenSharePieces()
+		if len(pieces) != n {
+			t.Fatalf("dealer %d dealt %d pieces for %d members", i, len(pieces), n)
 		}
-		sec := members[i].SeedSecKey().GetBigInt()
-		in.secrets = append(in.secrets, sec)
-		sum.Add(sum, sec)
-		pub := members[i].SeedPubKey()
-		if !pub.IsEqual(*groupsig.GeneratePubkey(members[i].SeedSecKey())) {
+		pub := m.SeedPubKey()
+		if !pub.IsEqual(*groupsig.GeneratePubkey(m.SeedSecKey())) {
 			t.Fatalf("dealer %d publishes a public key that is not the public key of its secret", i)
 		}
 		for _, h := range in.hexes {
-			p, ok := dealt[i][h]
+			p, ok := pieces[h]
 			if !ok {
 				t.Fatalf("dealer %d dealt no piece for member %s", i, h)
 			}
@@ -261,23 +270,99 @@ func buildInstance(t *rapid.T, n int) *instance {
 				t.Fatalf("dealer %d: piece for %s carries a different dealer public key", i, h)
 			}
 		}
+		if again {
+			// a member re-created for the same group (restart, context dropped and rebuilt) must
+			// deal the very same polynomial, or members end up with shares of different ones
+			old := members[i]
+			if !bytes.Equal(old.SeedPubKey().Serialize(), pub.Serialize()) || old.SeedSecKey().GetBigInt().Cmp(m.SeedSecKey().GetBigInt()) != 0 {
+				t.Fatalf("dealer %d re-created with the same miner seed and group hash deals a different secret / public key (%s, before %s)",
+					i, short(pub.Serialize()), short(old.SeedPubKey().Serialize()))
+			}
+			for _, h := range in.hexes {
+				o, p := dealt[i][h], pieces[h]
+				if !bytes.Equal(o.Share.Serialize(), p.Share.Serialize()) || !bytes.Equal(o.Pub.Serialize(), p.Pub.Serialize()) {
+					t.Fatalf("dealer %d re-created with the same miner seed and group hash deals a different piece to member %s", i, h)
+				}
+			}
+		}
+		members[i], dealt[i] = m, pieces
+		has[i], cnt[i], done[i] = make([]bool, n), 0, false
 	}
-	sum.Mod(sum, order)
+	dups := 0
+	deliver := func(d, j int) {
+		p := dealt[d][in.hexes[j]]
+		r := members[j].HandleSharePiece(in.ids[d], &p)
+		if has[j][d] {
+			dups++ // duplicate: the statement does not fix the return value, only the outcome
+			return
+		}
+		has[j][d] = true
+		cnt[j]++
+		want := 0
+		if cnt[j] == n {
+			want = 1
+			done[j] = true
+		}
+		if r != want {
+			t.Fatalf("receiver %d: HandleSharePiece of piece #%d (from dealer %d) returned %d, expected %d; DKG with honest pieces did not proceed normally", j, cnt[j], d, r, want)
+		}
+	}
+	for i := 0; i < n; i++ {
+		create(i, false)
+	}
+	rounds := rapid.SampledFrom([]int{0, 0, 1, 1, 2}).Draw(t, "restart_rounds")
+	in.restarts = 0
+	partial := false
+	for rd := 0; rd < rounds; rd++ {
+		early := rapid.SliceOfN(rapid.Bool(), n*n, n*n).Draw(t, fmt.Sprintf("early%d", rd))
+		down := rapid.SliceOfN(rapid.Bool(), n, n).Draw(t, fmt.Sprintf("down%d", rd))
+		forced := rapid.IntRange(0, n-1).Draw(t, fmt.Sprintf("down%d_one", rd))
+		down[forced] = true
+		for d := 0; d < n; d++ {
+			got := 0
+			for j := 0; j < n; j++ {
+				if early[d*n+j] {
+					deliver(d, j)
+					if !down[j] {
+						got++
+					}
+				}
+			}
+			if down[d] && got > 0 {
+				partial = true // some surviving receiver holds a pre-restart piece of a restarting dealer
+			}
+		}
+		for i := 0; i < n; i++ {
+			if down[i] {
+				create(i, true)
+				in.restarts++
+			}
+		}
+	}
 	for j := 0; j < n; j++ {
 		perm := make([]int, n)
 		for i := range perm {
 			perm[i] = i
 		}
 		perm = rapid.Permutation(perm).Draw(t, fmt.Sprintf("delivery%d", j))
-		for c, d := range perm {
-			p := dealt[d][in.hexes[j]]
-			r := members[j].HandleSharePiece(in.ids[d], &p)
-			if c < n-1 && r != 0 || c == n-1 && r != 1 {
-				t.Fatalf("receiver %d: HandleSharePiece #%d (from dealer %d) returned %d; DKG with honest pieces did not complete normally", j, c, d, r)
-			}
+		for _, d := range perm {
+			deliver(d, j)
 		}
+		if !done[j] {
+			t.Fatalf("receiver %d did not complete key generation after receiving a piece of every dealer", j)
+		}
+	}
+	in.restartClass = fmt.Sprintf("restart_rounds:%d", rounds)
+	in.partial = partial
+	in.dups = dups
+	sum := new(big.Int)
+	for j := 0; j < n; j++ {
+		sec := members[j].SeedSecKey().GetBigInt()
+		in.secrets = append(in.secrets, sec)
+		sum.Add(sum, sec)
 		in.signSK = append(in.signSK, members[j].SignSecKey())
 	}
+	sum.Mod(sum, order)
 	in.gpk = members[0].GroupPubKey()
 	for j := 1; j < n; j++ {
 		if g := members[j].GroupPubKey(); !bytes.Equal(g.Serialize(), in.gpk.Serialize()) {
@@ -464,6 +549,7 @@ func runSize(t *testing.T, n, quick, thorough int) {
 				sb.WriteString(s.Text(16) + ";")
 			}
 			sb.WriteString(hex.EncodeToString(in.msg))
+			fmt.Fprintf(&sb, "|%s,%d,%d", in.restartClass, in.restarts, in.dups)
 			key = sb.String()
 		}
 		over := 0
@@ -485,13 +571,23 @@ func runSize(t *testing.T, n, quick, thorough int) {
 		} else if over == n {
 			ov = "ids>=r:all"
 		}
-		stats.Case(key, fmt.Sprintf("n=%02d,k=%d", n, in.k), "ids:"+in.style, ml, ov)
+		rs := "dkg:no_restart"
+		if in.restarts > 0 {
+			rs = "dkg:restart_nothing_kept"
+			if in.partial {
+				rs = "dkg:restart_after_partial_delivery"
+			}
+		}
+		stats.Case(key, fmt.Sprintf("n=%02d,k=%d", n, in.k), "ids:"+in.style, ml, ov, in.restartClass, rs)
+		stats.Count("member_contexts_recreated", int64(in.restarts))
+		stats.Count("duplicate_pieces_offered", int64(in.dups))
 		var idS []string
 		for _, v := range in.idVals {
 			idS = append(idS, v.Text(16))
 		}
 		stats.Sample(map[string]string{"n": fmt.Sprint(n), "k": fmt.Sprint(in.k), "idstyle": in.style, "ids": strings.Join(idS, " "),
-			"msg": short(in.msg), "group_sig": short(in.want)})
+			"msg": short(in.msg), "group_sig": short(in.want),
+			"dkg_history": fmt.Sprintf("%s, %d contexts re-created, %d duplicate pieces offered", in.restartClass, in.restarts, in.dups)})
 
 		nSub, nBelow, nRec := in.checkAllSubsets(t, stats.Thorough())
 		wantSub := 0
